@@ -155,17 +155,21 @@ impl Family for AliasChain {
             "dict" => "Dictionary<string, S>",
             _ => "Missing",
         };
-        let mut text = String::from("module M\nstruct S {}\nenum E { X }\ncustom C\n");
+        let mut texts = [String::from("module M\nstruct S {}\nenum E { X }\ncustom C\n"), String::from("module N\nstruct S {}\nenum E { X }\ncustom C\n")];
+        let mod_of = |i: usize| -> &str { chain[i]["mod"].as_str().unwrap_or("M") };
+        let spell = |from: &str, j: usize| -> String {
+            if mod_of(j - 1) == from { format!("L{j}") } else { format!("::{}::L{j}", mod_of(j - 1)) }
+        };
         for (i, link) in chain.iter().enumerate() {
-            let next = link["next"].as_u64().unwrap_or(0);
-            let target = if next == 0 { term_text.to_owned() } else { format!("L{next}") };
+            let next = link["next"].as_u64().unwrap_or(0) as usize;
+            let target = if next == 0 { term_text.to_owned() } else { spell(mod_of(i), next) };
             let attr = if link["attr"] == true { format!("[x::a{}(\"v{}\")] ", i + 1, i + 1) } else { String::new() };
-            text.push_str(&format!("typealias L{} = {}{}\n", i + 1, attr, target));
+            texts[if mod_of(i) == "M" { 0 } else { 1 }].push_str(&format!("typealias L{} = {}{}\n", i + 1, attr, target));
         }
-        text.push_str("struct Use { f: [x::a0] L1? }\n");
-        let rendered = json!({"text": text});
-        let key = hash_str(&text);
-        let state = slicec::compile_from_strings(&[&text], None);
+        texts[0].push_str(&format!("struct Use {{ f: [x::a0] {}? }}\n", spell("M", 1)));
+        let rendered = json!({"files": texts});
+        let key = hash_str(&rendered.to_string());
+        let state = slicec::compile_from_strings(&[&texts[0], &texts[1]], None);
         let clean = !state.diagnostics.has_errors();
         let observed = if clean {
             match state.files[0].contents.last() {
@@ -180,6 +184,7 @@ impl Family for AliasChain {
         codes.sort();
         codes.dedup();
         let expect = &case["expect"];
+        let tmod = expect["tmod"].as_str().unwrap_or("M").to_owned();
         let fail = if expect["res"] == "bound" {
             let mut attrs = vec![json!({"d": "x::a0", "args": []})];
             for i in expect["attrs"].as_array().cloned().unwrap_or_default() {
@@ -187,12 +192,12 @@ impl Family for AliasChain {
             }
             let t = match term {
                 "int32" => json!({"f": "prim", "n": "int32"}),
-                "struct" => json!({"f": "named", "target": "M::S", "tk": "struct", "name": "S"}),
-                "enum" => json!({"f": "named", "target": "M::E", "tk": "enum", "name": "E"}),
-                "custom" => json!({"f": "named", "target": "M::C", "tk": "custom", "name": "C"}),
+                "struct" => json!({"f": "named", "target": format!("{tmod}::S"), "tk": "struct", "name": "S"}),
+                "enum" => json!({"f": "named", "target": format!("{tmod}::E"), "tk": "enum", "name": "E"}),
+                "custom" => json!({"f": "named", "target": format!("{tmod}::C"), "tk": "custom", "name": "C"}),
                 "seq" => json!({"f": "seq", "e": {"opt": true, "attrs": [], "t": {"f": "prim", "n": "bool"}}}),
                 _ => json!({"f": "dict", "k": {"opt": false, "attrs": [], "t": {"f": "prim", "n": "string"}},
-                            "v": {"opt": false, "attrs": [], "t": {"f": "named", "target": "M::S", "tk": "struct", "name": "S"}}}),
+                            "v": {"opt": false, "attrs": [], "t": {"f": "named", "target": format!("{tmod}::S"), "tk": "struct", "name": "S"}}}),
             };
             let want = json!({"opt": true, "attrs": attrs, "t": t});
             if !clean {
